@@ -157,6 +157,9 @@ def decide(prop, tier, seed, jobs_n, only=None, verbose=False):
             continue
         if st == "unknown":
             not_exhausted.append(r)
+            if r.get("undecided_path"):
+                problems.append("a path of %s %s could not be decided (operation outside CrossHair's models or solver "
+                                "unknown); the shard is inconclusive" % (r.get("fn"), json.dumps(r.get("shard"))))
             continue
         if st == "refuted":
             rep = r.get("replay")  # custom engines supply their own replay target
